@@ -101,10 +101,10 @@ MedianQ(xs) == LET s == SortInts(IntsOf(xs)) n == Len(s) IN
   IF n = 0 THEN Null
   ELSE IF n % 2 = 1 THEN Q(s[(n + 1) \div 2], 1)
   ELSE Q(s[n \div 2] + s[n \div 2 + 1], 2)
-\* integer-typed median: the two middle values are averaged with integer arithmetic
-MedianLoHi(xs) == LET s == SortInts(IntsOf(xs)) n == Len(s) IN
-  IF n = 0 THEN <<>> ELSE IF n % 2 = 1 THEN <<s[(n + 1) \div 2], s[(n + 1) \div 2]>>
-  ELSE <<s[n \div 2], s[n \div 2 + 1]>>
+\* integer-typed median: the two middle values are averaged and truncated toward zero
+MedianInt(xs) == LET s == SortInts(IntsOf(xs)) n == Len(s) IN
+  IF n = 0 THEN Null ELSE IF n % 2 = 1 THEN I(s[(n + 1) \div 2])
+  ELSE I(TruncDiv(s[n \div 2] + s[n \div 2 + 1], 2))
 
 \* variance family (exact rationals):  n*Sxx - Sx^2  over  n*n  or  n*(n-1)
 VarNum(s)  == Len(s) * SumSq(s) - SeqSum(s) * SeqSum(s)
@@ -181,7 +181,7 @@ Expect(rows) == LET xs == Col1(rows) IN
     count_distinct |-> CountDistinct(xs), sum_distinct |-> SumDistinct(xs), avg_distinct |-> AvgDistinct(xs),
     bool_and |-> BoolAnd(xs), bool_or |-> BoolOr(xs),
     bit_and |-> BitAnd(xs), bit_or |-> BitOr(xs), bit_xor |-> BitXor(xs), bit_xor_distinct |-> BitXorDistinct(xs),
-    median |-> MedianQ(xs), median_lohi |-> MedianLoHi(xs),
+    median |-> MedianQ(xs), median_int |-> MedianInt(xs),
     var_pop |-> VarPop(xs), var_samp |-> VarSamp(xs), stddev_pop |-> StddevPop(xs), stddev_samp |-> StddevSamp(xs),
     covar_pop |-> CovarPop(rows), covar_samp |-> CovarSamp(rows), corr |-> Corr(rows),
     regr_count |-> RegrCount(rows), regr_avgx |-> RegrAvgX(rows), regr_avgy |-> RegrAvgY(rows),
@@ -198,8 +198,63 @@ Expect(rows) == LET xs == Col1(rows) IN
 
 \* names of the fields of Expect that only depend on the bag of rows (checked by TLC in Accum)
 OrderInsensitive == {"count", "sum", "min", "max", "avg", "count_distinct", "sum_distinct", "avg_distinct",
-  "bool_and", "bool_or", "bit_and", "bit_or", "bit_xor", "bit_xor_distinct", "median", "median_lohi",
+  "bool_and", "bool_or", "bit_and", "bit_or", "bit_xor", "bit_xor_distinct", "median", "median_int",
   "var_pop", "var_samp", "stddev_pop", "stddev_samp", "covar_pop", "covar_samp", "corr",
   "regr_count", "regr_avgx", "regr_avgy", "regr_sxx", "regr_syy", "regr_sxy", "regr_slope", "regr_intercept",
   "regr_r2", "first_value_ord", "last_value_ord", "any_value", "array_agg_sorted", "string_agg_sorted"}
+
+---------------------------------------------------------------------------
+\* C06 -- grouping.  A table is a sequence of rows <<k1, k2, x, y>>; `ks` is the sequence of the
+\* key column indexes grouped on.  NULL is a key value like any other (it forms its own group).
+KeyOf(r, ks) == [i \in 1..Len(ks) |-> r[ks[i]]]
+GroupKeys(tbl, ks) == {KeyOf(tbl[i], ks) : i \in 1..Len(tbl)}
+GroupRows(tbl, ks, key) == SelectSeq(tbl, LAMBDA r : KeyOf(r, ks) = key)
+ArgsOf(rs) == [i \in 1..Len(rs) |-> <<rs[i][3], rs[i][4]>>]
+RECURSIVE SetAsSeq(_)
+SetAsSeq(T) == IF T = {} THEN <<>> ELSE LET x == CHOOSE z \in T : TRUE IN <<x>> \o SetAsSeq(T \ {x})
+
+\* array_agg(x ORDER BY y, x) (ASC NULLS LAST both): fully determined
+RECURSIVE InsertYX(_, _), SortYX(_)
+LeYX(p, q) == OrdKey(p[2]) < OrdKey(q[2]) \/ (OrdKey(p[2]) = OrdKey(q[2]) /\ OrdKey(p[1]) <= OrdKey(q[1]))
+InsertYX(p, s) == IF s = <<>> THEN <<p>> ELSE IF LeYX(p, Head(s)) THEN <<p>> \o s ELSE <<Head(s)>> \o InsertYX(p, Tail(s))
+SortYX(s) == IF s = <<>> THEN <<>> ELSE InsertYX(Head(s), SortYX(Tail(s)))
+ArrayAggOrdYX(args) == IF args = <<>> THEN Null ELSE L(Col1(SortYX(args)))
+\* FILTER (WHERE y > 0): rows whose predicate is TRUE (NULL and FALSE are dropped)
+FilterYPos(args) == SelectSeq(args, LAMBDA p : ~IsNull(p[2]) /\ p[2].v > 0)
+
+\* the aggregate values of one group
+AggRec(rs) == LET a == ArgsOf(rs) xs == Col1(a) f == Col1(FilterYPos(a)) IN
+  [ count_star |-> I(Len(rs)), count |-> Count(xs), sum |-> Sum(xs), min |-> Min(xs), max |-> Max(xs),
+    avg |-> Avg(xs), count_distinct |-> CountDistinct(xs), sum_distinct |-> SumDistinct(xs),
+    first_value_ord |-> FirstValueOrd(a), last_value_ord |-> LastValueOrd(a),
+    array_agg_ord |-> ArrayAggOrdYX(a), median |-> MedianQ(xs), var_pop |-> VarPop(xs),
+    bit_xor |-> BitXor(xs), bit_xor_distinct |-> BitXorDistinct(xs),
+    sum_filter |-> Sum(f), count_star_filter |-> I(Len(FilterYPos(a))), count_filter |-> Count(f) ]
+
+\* GROUP BY ks: exactly one output row per distinct key
+GroupBy(tbl, ks) == LET keys == SetAsSeq(GroupKeys(tbl, ks)) IN
+  [i \in 1..Len(keys) |-> [key |-> keys[i], e |-> AggRec(GroupRows(tbl, ks, keys[i]))]]
+\* aggregation without GROUP BY: one row, also over the empty table
+Global(tbl) == <<[key |-> <<>>, e |-> AggRec(tbl)]>>
+\* GROUPING SETS: the union (bag) of the groupings; key columns not in the set are NULL in the output
+FullKey(key, ks, nk) == [c \in 1..nk |-> IF \E i \in 1..Len(ks) : ks[i] = c
+                                        THEN key[CHOOSE i \in 1..Len(ks) : ks[i] = c] ELSE Null]
+GroupingSets(tbl, sets, nk) == Flatten([s \in 1..Len(sets) |->
+   LET g == IF sets[s] = <<>> THEN (IF tbl = <<>> THEN <<>> ELSE Global(tbl)) ELSE GroupBy(tbl, sets[s]) IN
+   [i \in 1..Len(g) |-> [key |-> FullKey(g[i].key, sets[s], nk), e |-> g[i].e]]])
+Rollup2 == << <<1, 2>>, <<1>>, <<>> >>
+Cube2   == << <<1, 2>>, <<1>>, <<2>>, <<>> >>
+Sets2   == << <<1>>, <<2>> >>
+
+\* grouped TopK: SELECT k1, max(x) m GROUP BY k1 ORDER BY m DESC NULLS LAST LIMIT n  (min: ASC)
+\* = the first n values of the sorted per-group extrema (ties leave the choice of group open)
+RankKey(v, desc) == IF IsNull(v) THEN 1000000 ELSE IF desc THEN -v.v ELSE v.v
+RECURSIVE InsertRank(_, _, _), SortRank(_, _)
+InsertRank(x, s, desc) == IF s = <<>> THEN <<x>> ELSE IF RankKey(x, desc) <= RankKey(Head(s), desc) THEN <<x>> \o s
+                          ELSE <<Head(s)>> \o InsertRank(x, Tail(s), desc)
+SortRank(s, desc) == IF s = <<>> THEN <<>> ELSE InsertRank(Head(s), SortRank(Tail(s), desc), desc)
+\* all per-group extrema in rank order; the TopK answer for LIMIT n is its prefix of length min(n, #groups)
+RankedExtrema(g1, desc) == SortRank([i \in 1..Len(g1) |-> IF desc THEN g1[i].e.max ELSE g1[i].e.min], desc)
+RankedKeys(g1) == SortRank([i \in 1..Len(g1) |-> g1[i].key[1]], FALSE)
+Prefix(s, n) == SubSeq(s, 1, IF n < Len(s) THEN n ELSE Len(s))
 =============================================================================
